@@ -266,7 +266,9 @@ impl Property for C20 {
 
         // ---- labels! / opts! / histogram_opts!
         {
-            let ks: Vec<String> = (0..3).map(|j| format!("k{}{}", j, src.pick(&["", "x"]))).collect();
+            // (a third of the cases: keys drawn from two names, so that a key is written twice - the last value stands, as with inserts)
+            let dup = src.chance(85);
+            let ks: Vec<String> = (0..3).map(|j| if dup { format!("k{}", src.below(2)) } else { format!("k{}{}", j, src.pick(&["", "x"])) }).collect();
             let vs: Vec<String> = (0..3).map(|_| src.pick(VALS).to_string()).collect();
             for n in 0..4 {
                 for comma in [false, true] {
